@@ -1,6 +1,7 @@
 """C02 — loop-level theorems + correspondence of Solver.solve with a scripted step oracle."""
 from ..gen import Gen
 from ..unit import run_unit
+from .. import camp_props
 from ..units.loop import Loop
 from ..units.numeric import IterateUnit
 
@@ -12,3 +13,4 @@ def run(rep, tier, seed, scratch):
     g = Gen(seed)
     for u in (IterateUnit(), Loop()):
         run_unit(rep, u, u.gen(g, tier), scratch)
+    camp_props.run_single(rep, 'C02', tier, seed, 40, 300)
